@@ -568,6 +568,11 @@ class Node(
         if self.use_cache and not self.failed:
             # Only inputs that produced the current outputs may short-circuit a run
             self._cached_inputs = self.inputs.to_value_dict()
+        elif self.failed:
+            # A failed run may have changed what is below (a composite's children ran
+            # in part), so inputs remembered from an earlier success no longer describe
+            # the outputs
+            self._cached_inputs = None
         parent_is_running = self.parent is not None and self.parent.running
         if parent_is_running and emit_ran_signal:
             # Enqueue our signals _before_ un-registering: a parent polling from another
